@@ -3045,10 +3045,14 @@ coap_handle_request_put_block(coap_context_t *context,
     lg_srcv->body_data = coap_block_build_body(lg_srcv->body_data, length, data,
                                                saved_offset, lg_srcv->total_len);
     if (!lg_srcv->body_data) {
+      /*
+       * The blocks stored so far are gone (and this one is recorded as
+       * received without having been stored): drop the transfer state.
+       */
       coap_add_data(response, sizeof("Memory issue")-1,
                     (const uint8_t *)"Memory issue");
       response->code = COAP_RESPONSE_CODE(500);
-      goto skip_app_handler;
+      goto free_lg_srcv;
     }
   }
 
